@@ -160,6 +160,12 @@ func c03Gen(r *kit.Rand, idx int, tiny []byte) c03Case {
 			case 2:
 				// well-formed challenge: token endpoint is served and the retry must go through
 				f = Fault{Kind: kit.Pick(r, []string{"manifest", "head", "blobget"}), Nth: r.Range(1, 2), Act: "challenge", Str: "GOOD"}
+				if r.Chance(1, 2) {
+					// ... and the token endpoint misbehaves in turn
+					tf := Fault{Kind: "token", Nth: 1, Act: kit.Pick(r, []string{"status", "garbage", "reset", "garbage"}), Code: kit.Pick(r, []int{500, 401, 403, 404}),
+						Str: kit.Pick(r, []string{"", "{", "null", "[]", `{"token":5}`, `{"token":""}`, `{"token":null}`, `{"access_token":"x"}`, "<html>", `"token"`, `{"token":"` + strings.Repeat("t", 70000) + `"}`})}
+					at.Faults = append(at.Faults, tf)
+				}
 			case 3:
 				f = Fault{Kind: "manifest", Nth: 1, Act: kit.Pick(r, []string{"truncate", "garbage", "reset"}), Arg: int64(r.Intn(60)), Str: kit.Pick(r, []string{"", "{", "null", "[]", `{"layers":null}`, `{"layers":[{"digest":"x"}]}`, `{"config":{"digest":"sha256:zz"}}`, "<html>",
 					`{"layers":[{"digest":"","size":5}]}`, `{"layers":[{}]}`, `{"layers":[null]}`, `{"layers":[{"digest":"sha256:"}]}`, `{"layers":[{"digest":"sha256-0000000000000000000000000000000000000000000000000000000000000000"}]}`,
